@@ -173,6 +173,7 @@ func (w *w1) propagate() {
 // and `if cond { continue/break }` guards
 func factsWithSwitch(parents map[ast.Node]ast.Node, at ast.Node) []condFact {
 	out := collectFacts(parents, at)
+	add := factAdder(parents, at, &out)
 	child := at
 	for n := parents[at]; n != nil; child, n = n, parents[n] {
 		switch x := n.(type) {
@@ -181,13 +182,17 @@ func factsWithSwitch(parents map[ast.Node]ast.Node, at ast.Node) []condFact {
 				for _, cs := range sw.Body.List {
 					cc := cs.(*ast.CaseClause)
 					if cc == x {
-						for _, e := range cc.List {
-							out = append(out, condFact{ast.Unparen(e), false})
+						if len(cc.List) == 1 {
+							add(cc.List[0], false)
+						} else {
+							for _, e := range cc.List {
+								out = append(out, condFact{ast.Unparen(e), false})
+							}
 						}
 						break
 					}
 					for _, e := range cc.List {
-						out = append(out, condFact{ast.Unparen(e), true})
+						add(e, true)
 					}
 				}
 			}
@@ -198,13 +203,13 @@ func factsWithSwitch(parents map[ast.Node]ast.Node, at ast.Node) []condFact {
 				}
 				if ifs, ok := s.(*ast.IfStmt); ok && ifs.Else == nil && len(ifs.Body.List) > 0 {
 					if br, ok := ifs.Body.List[len(ifs.Body.List)-1].(*ast.BranchStmt); ok && (br.Tok == token.CONTINUE || br.Tok == token.BREAK) {
-						out = append(out, condFact{ast.Unparen(ifs.Cond), true})
+						add(ifs.Cond, true)
 					}
 				}
 			}
 		case *ast.ForStmt:
 			if x.Cond != nil && child == ast.Node(x.Body) {
-				out = append(out, condFact{ast.Unparen(x.Cond), false})
+				add(x.Cond, false)
 			}
 		case *ast.FuncLit, *ast.FuncDecl:
 			return out
